@@ -18,10 +18,13 @@ TEXT = {
                          "returning generator member returns uniform(...) of its own integer output",
     "C20.nonzero-seed": "SimpleRandomT::uint64 / uint32 return only a value that was tested non-zero; BaseRandomT fills all four state words through them",
     "C20.pure": "generator members write only their own _state (and locals), call only their own members and the arithmetic helpers; no statics",
+    "C20.sequenced": "no expression of a generator member has two operands that both advance the generator unless the language orders them (&&, ||, comma, "
+                     "braced initialiser, separate statements): the order in which function arguments and operator operands are evaluated is unspecified, "
+                     "so the output would depend on the compiler and not only on the seed",
     "C20.reference": "next-state and output terms of raw64/raw32, FloatRandomT/IntRandomT::uint64/uint32 equal the reference terms of splitmix64/32, "
                      "xoshiro256+/128+/256**/128**; jump(): JUMP tables, loop bounds and loop body equal the reference's",
 }
-MIN_INSTANCES = {"C20.unit-interval": 2, "C20.nonzero-seed": 4, "C20.pure": 10, "C20.reference": 10}
+MIN_INSTANCES = {"C20.unit-interval": 2, "C20.nonzero-seed": 4, "C20.pure": 10, "C20.sequenced": 10, "C20.reference": 10}
 
 
 def declare(ctx):
@@ -38,6 +41,7 @@ def check(ctx, F):
     check_unit_interval(ctx, F)
     check_seed(ctx, F)
     check_pure(ctx, F)
+    check_sequenced(ctx, F)
 
 
 # ------------------------------------------------------------------------------------------------ symbolic terms
@@ -410,6 +414,70 @@ def check_seed(ctx, F):
             if vals != [want] * 4:
                 ctx.violation("C20.nonzero-seed", site, "%s (%s)" % (site, F.floc(fid)),
                               "%s fills the state with %s, expected four %s (the zero-rejecting draw)" % (site, vals, want), {})
+
+
+GENERATORS = ("SimpleRandomT", "BaseRandomT", "FloatRandomT", "IntRandomT")
+
+
+def _advancing(F):
+    """generator members that change the generator's state: write _state, or call one that does (fixpoint over resolved callees)"""
+    gens = {fid: b for fid, b in F.bodies.items() if b.get("cls") in GENERATORS}
+    adv = set()
+    for fid, b in gens.items():
+        for x in walk(b.get("body") or {}):
+            k = x.get("k")
+            if k == "asg" or (k == "un" and x.get("op") in ("++", "--")):
+                root = strip(x["lhs"] if k == "asg" else x["e"])
+                while root.get("k") == "idx":
+                    root = strip(root.get("b") or {})
+                if root.get("k") == "mem" and root.get("n") == "_state":
+                    adv.add(fid)
+    changed = True
+    while changed:
+        changed = False
+        for fid, b in gens.items():
+            if fid in adv:
+                continue
+            if any(x.get("k") == "call" and x.get("f") in adv for x in walk(b.get("body") or {})):
+                adv.add(fid)
+                changed = True
+    return adv
+
+
+def check_sequenced(ctx, F):
+    adv = _advancing(F)
+
+    def advances(e):
+        return [F.fn(x["f"])["name"] for x in walk(e or {}) if x.get("k") in ("call", "ctor") and x.get("f") in adv]
+
+    for fid, b in F.bodies.items():
+        if b.get("cls") not in GENERATORS or not b["inst"]:
+            continue
+        t = F.type(b["tid"])
+        site = "%s<%s>::%s/%d" % (b["cls"], t["args"][0].get("v") if t.get("args") else "", b["name"], len(b.get("params", [])))
+        bad = None
+        for x in walk(b.get("body") or {}):
+            k = x.get("k")
+            ops = None
+            if k == "call":
+                ops = [o for o in [x.get("obj")] + list(x.get("a", [])) if o is not None]
+                what = "arguments of the call to %s" % (F.fn(x["f"])["name"] if "f" in x else "?")
+            elif k == "bin" and x.get("op") not in ("&&", "||", ","):
+                ops = [x.get("lhs"), x.get("rhs")]
+                what = "operands of `%s`" % x.get("op")
+            elif k == "asg":
+                ops = [x.get("lhs"), x.get("rhs")]
+                what = "sides of the assignment"
+            if not ops:
+                continue
+            hit = [a for a in (advances(o) for o in ops) if a]
+            if len(hit) >= 2:
+                bad = "%s: %s" % (what, " / ".join("+".join(h) + "()" for h in hit))
+        ctx.instance("C20.sequenced", site, {"function": site, "loc": F.floc(fid), "state_advancing_members": len(adv)})
+        if bad:
+            ctx.violation("C20.sequenced", site, "%s (%s)" % (site, F.floc(fid)),
+                          "%s: two %s advance the generator and their order of evaluation is unspecified (g++: right to left, clang++: left to right): "
+                          "the output depends on the compiler, not only on the seed" % (site, bad), {})
 
 
 ALLOWED_CALLEES = {"uniform", "reinterpret", "rotl", "widen", "count", "overwriteWith", "uint64", "uint32", "raw64", "raw32", "float32", "float64", "next", "seed",
